@@ -612,10 +612,9 @@ func (prog *Prog) buildProg(as abi.As, arg *abi.X64Argument) (inst *Prog, err er
 	case APUSH: // push
 		// push rbp
 		assert(prog.nArg(arg) == 1)
-		prog.From = src
 		switch prog.xLen(arg) {
 		case 1:
-			assert(arg.Src.Reg == REG_AL)
+			assert(arg.Dst.Reg == REG_AL)
 			prog.As = p9x86.APUSHAL
 		case 2:
 			prog.As = p9x86.APUSHW
@@ -626,7 +625,7 @@ func (prog *Prog) buildProg(as abi.As, arg *abi.X64Argument) (inst *Prog, err er
 		default:
 			panic("unreachable")
 		}
-		prog.To = dst
+		prog.From = dst // Plan 9 operand order: PUSHQ src
 
 	case ARET: // ret
 		assert(prog.nArg(arg) == 0)
